@@ -349,7 +349,7 @@ pub fn expect(cap: usize, len: usize, act: &Act) -> Exp {
             };
         }
         StepsOn(kind, rs, st) => {
-            let (a, b) = if kind == 2 || kind == 3 || kind == 5 {
+            let (a, b) = if kind == 2 || kind == 3 || kind == 5 || kind == 6 {
                 match rs.resolve(len) {
                     Ok(x) => x,
                     Err(()) => return panics(),
@@ -412,6 +412,13 @@ pub fn expect(cap: usize, len: usize, act: &Act) -> Exp {
                 }
                 5 => {
                     v.drain(a..b);
+                }
+                6 => {
+                    return Exp {
+                        panics: false,
+                        trace,
+                        post: Post::Unspecified,
+                    }
                 }
                 _ => return unchanged(trace),
             }
